@@ -132,4 +132,15 @@ PROPS = {
         "assumptions": [],
         "floor": {"quick": 2000, "thorough": 100000},
     },
+    "C18": {
+        "modes": ["dbg", "rel"],
+        "level": "exploration",
+        "technique": "runtime monitoring: round-trip and differential oracles - shape generator (written message / empty message / expected leaves from one description) for the message model; independent reference PER, BER/DER, CredSSP and GCC codecs for the rest",
+        "level_text": "(a) random message shapes (depth <= 4, width <= 8: integers of either endianness, fixed and size-governed byte blocks, constant-checked fields, nested records and trames, size-dependent fields with the size field adjacent or apart, skippable fields incl. skip chains, backward and self references, optional trailing fields, arrays) are built through the public constructors; length() must equal the bytes written, the bytes must equal the reference encoding, and reading them (plus a sentinel for self-delimiting shapes) into an empty message of the same shape must reproduce every leaf and consume exactly that many bytes. (b) PER: every length 0..0x7fff, every u16 integer plus boundaries (every u32 in the thorough tier), (value, minimum) pairs (all 2^31 in thorough), object identifiers over all 16x16 first-byte pairs, octet strings across the 0x7f/0x80 boundary with minimum 0..8, numeric strings, all 256 values of the single-octet primitives - each against refs::per in both directions. (c) Connect-Response / Connect-Initial / TSRequest shapes with integers at every byte-length boundary, octet strings across 127/128/255/256/65535/65536 and negative enumerated values against refs::ber (DER equality, strict decode of the library's output, library decode of DER and of non-minimal BER). (d) conference-create-request for every user-data length 0..1000 and conference-create-responses from the server-profile generator with 0..7 channel ids.",
+        "level_note": "Trusted: refs::per, refs::ber, refs::cssp, refs::proto (GCC) and the shape generator's reference encoder (props/c18a.rs). Model contract assumed by the generator: size fields carry the true size of what they govern; zero-length blocks only where a size or the end of the message delimits them; array elements consume at least one byte.",
+        "rule": ("cases = shapes / values as listed; distinct = hash of the encoded bytes or the value index; all non-trivial. The u32 sweep counts one distinct case per block of 4096 integers."),
+        "assumptions": [],
+        "exhaustive": {"quick": False, "thorough": True},
+        "floor": {"quick": 100000, "thorough": 1000000},
+    },
 }
